@@ -53,6 +53,9 @@ def run(ctx):
             if d["typed"] is None:
                 outcome["outside"] = outcome.get("outside", 0) + 1
                 continue
+            rm = e2e.reader_mismatch(d)
+            if rm:
+                mism.append(f"reader tools/cread.py vs real dispatch: {rm} on\n{src}")
             res = e2e.calculus_check(d, "C01", failing, src, {"fin": fin, "strict": strict})
             outcome[res] = outcome.get(res, 0) + 1
             recs.append(d)
